@@ -39,13 +39,14 @@ def line(dt, specs, pts, orders):
             + " %d %d %d" % tuple(orders))
 
 
-def one_case(run, specs, pts, orders, dt, transform=None, via_class=False):
+def one_case(run, specs, pts, orders, dt, transform=None, via_class=False, runtime_name=False):
     from gbasis.evals.eval import evaluate_basis
     from gbasis.evals.eval_deriv import evaluate_deriv_basis
 
     basis = make_basis(specs)
     rep = {"case": "evalderiv", "basis": core.describe_basis(specs), "points": pts.tolist(), "orders": list(orders),
-           "deriv_type": dt, "transform": None if transform is None else transform.tolist(), "via_class": via_class}
+           "deriv_type": dt, "transform": None if transform is None else transform.tolist(), "via_class": via_class,
+           "runtime_name": runtime_name}
     run.case((dt, tuple(orders), via_class) + sig(specs) + (len(pts), transform is not None),
              sample={"op": "evaluate_deriv_basis", "deriv_type": dt, "orders": list(orders),
                      "basis": core.describe_basis(specs), "npoints": len(pts)})
@@ -57,6 +58,8 @@ def one_case(run, specs, pts, orders, dt, transform=None, via_class=False):
         mexc = None
     except ModelError as e:
         mexc = str(e)
+    if runtime_name:
+        dt = "".join(list(dt))          # an equal string that is not the interned literal (as read from a file / command line)
     try:
         if via_class:
             # the documented class interface behind the wrapper: the same request must get the same answer (or rejection)
@@ -154,6 +157,11 @@ def check(run):
         sp_ = custom_order_family(rng, (1, 2, 3) if k % 2 else (2, 1), two=(k % 3 == 0))
         one_case(run, sp_, points_for(rng, sp_, 3), o, dt, via_class=(k % 4 == 3))
         run.count("declared (non-default) Cartesian component order")
+    for k, (o, dt) in enumerate([((3, 0, 0), "direct"), ((2, 1, 3), "direct"), ((1, 2, 0), "direct"), ((0, 4, 1), "general"), ((1, 0, 0), "bogus"),
+                                 ((0, 0, 4), "direct")]):
+        sp_ = random_basis(rng, 1, 2, lmax=2)
+        one_case(run, sp_, points_for(rng, sp_, 3), o, dt, via_class=(k % 2 == 1), runtime_name=True)
+        run.count("back-end name given as a run-time string")
     batch_independence(run)
 
 
@@ -211,5 +219,6 @@ def replay(run, rep):
         return len(run.violations) == n0
     t = rep.get("transform")
     one_case(run, specs_from(rep), np.array(rep["points"]), tuple(rep["orders"]), rep["deriv_type"],
-             None if t is None else np.array(t), via_class=bool(rep.get("via_class")))
+             None if t is None else np.array(t), via_class=bool(rep.get("via_class")),
+             runtime_name=bool(rep.get("runtime_name")))
     return len(run.violations) == n0
